@@ -14,7 +14,7 @@ from ..report import Report, key_of
 from ..terms import pretty
 from ..types import Ctx
 from .c05 import classify, persistent_data_classes
-from .common import TRUSTED_BASE, cfg_nodes_for, effects_of, where
+from .common import TRUSTED_BASE, cfg_nodes_for, effects_of, expanded_facts, where
 
 
 def load_guard_facts(A):
@@ -25,7 +25,8 @@ def load_guard_facts(A):
     for n in A.typer.own_nodes(f):
         if isinstance(n, ast.Call) and isinstance(n.func, ast.Attribute) and n.func.attr == 'load':
             for cn in cfg_nodes_for(cfg, n):
-                out.append((n, cn, [(src(a), pol) for a, pol in cfg.facts_at(cn.id)], [(a, pol) for a, pol in cfg.facts_at(cn.id)]))
+                fx = expanded_facts(A, f, cfg, cn.id)
+                out.append((n, cn, [(src(a), pol) for a, pol in fx], fx))
     return f, out
 
 
